@@ -2,7 +2,7 @@
 import dataclasses
 from typing import Any
 
-from .. import bind, models
+from .. import alpha, bind, models
 from ..core import Check, Space
 
 NAMES = ("e", "j", "t", "u", "w")
@@ -176,6 +176,9 @@ class C08(Check):
             n = 5 if Q else 6
             out.append(Space(f"{mname}: bodies<={n}", {"model": mname, "body_size": n, "stages": 1},
                              (lambda mname=mname, n=n: self._single(mname, n)), runner="run_chain"))
+            out.append(Space(f"{mname}: nested-then-outer", {"model": mname, "shape": "(A op B), A contains a nested lambda, "
+                             "B uses the outer parameter; parameter names distinct and all equal"},
+                             (lambda mname=mname: self._combos(mname, 5 if Q else 6)), runner="run_chain"))
             k = 3 if Q else 4
             out.append(Space(f"{mname}: chains K<=3 bodies<={k}", {"model": mname, "body_size": k, "stages": "2..3"},
                              (lambda mname=mname, k=k: self._chains(mname, k, 3 if not Q else 2)), runner="run_chain"))
@@ -190,6 +193,28 @@ class C08(Check):
             for t, src in gen.gen((("e", root),), size):
                 for op in self._ops_for(t):
                     out.append((mname, ((op, src),)))
+        return out
+
+    def _combos(self, mname, n):
+        g, d = models.load(mname)
+        gen = Gen(d, ("const",))
+        root = ("Obj", d["root"])
+        A, B = [], []
+        for size in range(2, n + 1):
+            for t, src in gen.gen((("e", root),), size):
+                if t in NUM and "lambda" in src:
+                    A.append(src)
+                elif t in NUM and size <= 2 and src.startswith("e."):
+                    B.append(src)
+        out = []
+        for a in A:
+            for b in B:
+                for body in (f"({a} + {b})", f"({b} / {a})", f"{{'k': {a}, 'l': {b}}}"):
+                    out.append((mname, (("Select", body),)))
+                    for renamed in alpha.namings_src(f"lambda e: {body}", ("e",)):
+                        rb = renamed[len("lambda e: "):]
+                        if rb != body:
+                            out.append((mname, (("Select", rb),)))
         return out
 
     def _ops_for(self, t):
@@ -268,7 +293,10 @@ class C08(Check):
                 res["viol"].append({"kind": "non-boolean-where-accepted", "canon": canon, "msg": f"body type {t!r}"})
                 return res
             new_item = t if op == "Select" else (item if op == "Where" else models.elem(t))
-            prob = type_problem(s2.item_type, new_item, g)
+            try:
+                prob = type_problem(s2.item_type, new_item, g)
+            except Exception as e:  # the library handed back something that is not a usable type object
+                prob = f"malformed type object {s2.item_type!r} ({type(e).__name__}: {e})"
             if prob:
                 res["oc"].append("wrong-type")
                 res["viol"].append({"kind": f"wrong-item-type:{op}", "canon": canon,
@@ -279,11 +307,56 @@ class C08(Check):
         return res
 
     def _type_of(self, gen, item, body):
-        for size in range(1, 9):
+        for size in range(1, 8):
             for t, src in gen.gen((("e", item),), size):
                 if src == body:
                     return t
+        if "lambda" in body:
+            return self._type_of_combo(gen, item, body)
         raise RuntimeError(f"harness: cannot re-derive the type of {body!r} over {item!r}")
+
+    def _type_of_combo(self, gen, item, body):
+        """(A + B), (B / A), {'k': A, 'l': B}: the type follows from the parts; a body whose nested parameters were
+        renamed has the type of its canonical naming (renaming binders does not change types)"""
+        import ast as _ast
+
+        tree = _ast.parse(body, mode="eval").body
+
+        def part_type(node):
+            src = _ast.unparse(node)
+            canon = self._canonical(src)
+            for size in range(1, 9):
+                for t, s in gen.gen((("e", item),), size):
+                    if _ast.unparse(_ast.parse(s, mode="eval").body) == canon:
+                        return t
+            raise RuntimeError(f"harness: cannot type the part {src!r}")
+
+        if isinstance(tree, _ast.Dict):
+            return ("Dic", (("k", part_type(tree.values[0])), ("l", part_type(tree.values[1]))))
+        op = "/" if isinstance(tree.op, _ast.Div) else "+"
+        return promote(part_type(tree.left), part_type(tree.right), op)
+
+    @staticmethod
+    def _canonical(src):
+        "rename nested lambda parameters back to the generator's by-depth names (e, j, t, ...)"
+        import ast as _ast
+
+        tree = _ast.parse(src, mode="eval")
+
+        def walk(n, depth, env):
+            if isinstance(n, _ast.Lambda):
+                new = NAMES[depth]
+                old = n.args.args[0].arg
+                n.args.args[0].arg = new
+                walk(n.body, depth + 1, dict(env, **{old: new}))
+                return
+            if isinstance(n, _ast.Name) and n.id in env:
+                n.id = env[n.id]
+            for c in _ast.iter_child_nodes(n):
+                walk(c, depth, env)
+
+        walk(tree.body, 1, {"e": "e"})
+        return _ast.unparse(tree.body)
 
     def render(self, space_name, payload):
         return repr(payload)
